@@ -20,9 +20,27 @@ def nc(ins, t, bare):
     return False
 
 
-def zero_edges(ins):
+def compute_dc(ins):
+    """greatest fixpoint: bare structs that definitely consume because an unmasked field does (dc_ok)"""
+    dc = [x["kind"] == "struct" for x in ins]
+
+    def dcall(t, bare):
+        return (not nc(ins, t, bare)) or (0 <= t < len(dc) and dc[t])
+    changed = True
+    while changed:
+        changed = False
+        for x in ins:
+            if dc[x["id"]] and not any(f.get("mask") is None and dcall(f["type"], f["bare"]) for f in x["fields"]):
+                dc[x["id"]] = False
+                changed = True
+    return dc
+
+
+def zero_edges(ins, dc=None):
     """t -> [(child, field index | -1, masked)]: nested non-consuming calls reachable with zero bytes
     consumed since t's entry (same traversal as fields_ranked / tydef_ranked)"""
+    if dc is None:
+        dc = compute_dc(ins)
     edges = {}
     for x in ins:
         out = []
@@ -31,7 +49,7 @@ def zero_edges(ins):
                 c = nc(ins, f["type"], f["bare"])
                 if c:
                     out.append((f["type"], i, f.get("mask") is not None))
-                if f.get("mask") is None and not c:
+                if f.get("mask") is None and (not c or dc[f["type"]]):
                     break          # this field definitely consumes
         elif x["kind"] == "array" and x.get("isTuple"):
             f = x["elem"]
@@ -43,7 +61,7 @@ def zero_edges(ins):
 
 def find_rank(ins):
     """(rank list | None, cycles).  rank = longest zero-consumption path; None when there is a cycle."""
-    edges = zero_edges(ins)
+    edges = zero_edges(ins, compute_dc(ins))
     rank, state, cycles = {}, {}, []
     sys.setrecursionlimit(max(sys.getrecursionlimit(), 20000))
 
@@ -365,3 +383,38 @@ def json_mutations(rng, txt, big_first=False):
     out.append(rng.choice([b"", b"null", b"true", b"0", b"\"\"", b"[]", b"{}", b"{\"\":{}}", b"[[],[[]],{}]"]))
     rng.shuffle(out)
     return first + out if big_first else out + first
+
+
+# ----------------------------------------------------------------------------- F1-type schema family
+
+def f1_variant(rng, ns="fv"):
+    """Random schema with a reference cycle that is broken only by field masks on an EXTERNAL nat
+    parameter (the shape of finding F1), with variations: cycle length, zero-size-able fields in
+    front of the recursive field, edges through fixed tuples / typedef wrappers, and -- in about a
+    third of the cases -- an unmasked consuming field that makes the schema productive after all."""
+    k = rng.choice([1, 1, 2, 3])
+    productive = rng.random() < 0.35
+    guard_at = rng.randrange(k) if productive else -1
+    lines = []
+    lines.append(f"{ns}.w {{n:#}} {{m:#}} v:({ns}.c0 n m) = {ns}.W n m;")   # typedef-like wrapper
+    for i in range(k):
+        nxt = f"{ns}.c{(i + 1) % k}"
+        fs = []
+        for j in range(rng.choice([0, 0, 1, 2])):
+            fs.append(rng.choice([f"p{j}:n.{rng.choice([4, 6, 7])}?int", f"p{j}:true", f"p{j}:m*[int]", f"p{j}:n.{rng.choice([8, 9])}?string"]))
+        if i == guard_at:
+            fs.append(rng.choice(["g:int", "g:string", "g:(vector int)", "g:#"]))
+        bit = rng.choice([0, 1, 2, 3, 5])
+        args = rng.choice(["n m", "n m", "n 0"])
+        form = rng.random()
+        if form < 0.6:
+            ref = f"({nxt} {args})"
+        elif form < 0.8:
+            ref = f"(tuple ({nxt} {args}) 2)"
+        else:
+            ref = f"({ns}.w {args})" if (i + 1) % k == 0 else f"({nxt} {args})"
+        fs.append(f"x:n.{bit}?{ref}")
+        fs.append(rng.choice(["y:int", "y:long", "y:string"]))
+        lines.append(f"{ns}.c{i} {{n:#}} {{m:#}} {' '.join(fs)} = {ns}.C{i} n m;")
+    lines.append(f"{ns}.top a:# b:# v:({ns}.c0 a b) = {ns}.Top;")
+    return "\n".join(lines) + "\n"
